@@ -167,13 +167,16 @@ RemLM(mm, l, n) ==
      ELSE m1
 
 \* what a listener does when it is called
-BehOf(l) == IF l \in {"raise", "self", "other", "adder"} THEN l ELSE "ok"
+BehOf(l) == IF l \in {"raise", "self", "other", "adder", "killer"} THEN l ELSE "ok"
 Victim == "ok2"
 Late == "late"          \* the listener that "adder" registers (for the same event name) while it is being called
 Behave(mm, l, n) ==
   CASE BehOf(l) = "self"  -> IF l \in SeqToSet(mm.cbs[n]) THEN RemLM(mm, l, n) ELSE mm
     [] BehOf(l) = "other" -> IF Victim \in SeqToSet(mm.cbs[n]) THEN RemLM(mm, Victim, n) ELSE mm
     [] BehOf(l) = "adder" -> IF Late \in SeqToSet(mm.cbs[n]) THEN mm ELSE AddLM(mm, Late, n)
+    \* "killer" unsubscribes the one-shot listener "self"; "self", still called in this delivery, then tries to
+    \* unsubscribe itself although it is no longer registered: an error inside that listener, nothing else
+    [] BehOf(l) = "killer" -> IF "self" \in SeqToSet(mm.cbs[n]) THEN RemLM(mm, "self", n) ELSE mm
     [] OTHER -> mm
 
 \* Event.got_update: ls is the list being iterated, i the position;
@@ -275,6 +278,7 @@ GBehave(r, l) ==
     [] BehOf(l) = "other" -> IF Victim \in SeqToSet(r) THEN RemoveFirst(r, Victim) ELSE r
     \* a listener registered during delivery hears later events, not the one being delivered
     [] BehOf(l) = "adder" -> IF Late \in SeqToSet(r) THEN r ELSE Append(r, Late)
+    [] BehOf(l) = "killer" -> IF "self" \in SeqToSet(r) THEN RemoveFirst(r, "self") ELSE r
     [] OTHER -> r
 
 \* returns [r |-> registrations afterwards, must |-> set, may |-> set]
